@@ -39,6 +39,7 @@ func runC14(c *Ctx) {
 	r.Rule("C14.R4", "provenance: DTLSTransport.remoteParameters is written only by prepareStart from its parameter, which Start/StartContext/start pass through; startTransports builds the parameters from its fingerprint arguments, which at its only call site are results 0 (value) and 1 (hash) of extractFingerprint(desc.parsed); extractFingerprint returns (parts[1], parts[0]) of the \"hash value\" attribute and fails when no fingerprint is present; the transports are started only after extractFingerprint succeeded", 9)
 	r.Rule("C14.R7", "Certificate.Equals (SetConfiguration's guard against replacing the presented certificate) returns true only when the two X.509 certificates are Equal, and compares no key material by pointer/interface identity", 6)
 	r.Rule("C14.R8", "every write of pc.configuration.Certificates after construction (SetConfiguration) is dominated by a length-equality test and by a loop that fails unless old[i].Equals(new[i]) for every position i: the index-k agreement of C14.R5 survives SetConfiguration", 1)
+	r.Rule("C14.R9", "prepareStart stores DTLSTransport.remoteParameters only on the accepted path: no possibly-failing return is reachable after the store (a rejected second Start does not replace the fingerprints the handshake in flight is verified against)", 1)
 	r.Rule("C14.R5", "advertised = presented: the SDP generators fingerprint pc.configuration.Certificates[k] and the transport presents t.certificates[k] (certificate and private key) with the same constant k; t.certificates is written only by the constructor, which copies its argument in order, and NewPeerConnection passes pc.configuration.Certificates; GetFingerprints hashes the certificate's own x509Cert with SHA-256", 8)
 	r.NotCovered = append(r.NotCovered,
 		"that pion/dtls calls the VerifyPeerCertificate callback and fails the handshake on a non-nil result",
@@ -54,6 +55,7 @@ func runC14(c *Ctx) {
 	c14ClientAuth(c)
 	c14CertEquals(c, "C14.R7", "C14.R7")
 	c14R8(c) // c14b.go
+	c14R9(c)
 }
 
 func c14IsPkgFunc(info *types.Info, call *ast.CallExpr, path, name string) bool {
